@@ -77,7 +77,18 @@ def _gen_one(w, s, tier):
     multi = multi and bool(unobs_rows)
     if multi:
         r = w.choice(unobs_rows)  # the policy only ever sees batch plates and unobserved plates
-        rows.append([r[0] + "x", [["d0", 1.0], ["d1", 1.0]], 0.5, r[3], r[4]])  # a second sample on one plate
+        extra = [r[0] + "x", [["d0", 1.0], ["d1", 1.0]], 0.5, r[3], r[4]]  # a second sample on one plate ...
+        where = w.choice(["end", "start", "middle", "middle"])  # ... anywhere among that plate's rows (a,a,b / b,a,a / a,b,a)
+        same = [i for i, q in enumerate(rows) if q[3] == r[3]]
+        if where == "end":
+            rows.append(extra)
+        elif where == "start":
+            rows.insert(same[0], extra)
+        else:
+            if len(same) < 2:
+                rows.append([r[0], [["d2", 1.0], ["d3", 1.0]], 0.4, r[3], r[4]])
+                same = [i for i, q in enumerate(rows) if q[3] == r[3]]
+            rows.insert(same[0] + 1, extra)
     spec_extra = w.random() < 0.3
     k = w.randint(1, 4)
     if bigmode == "k":
